@@ -58,7 +58,7 @@ class WatchWorld(VfsWorld):
         return super().call_method(I, ref, v, method, args, node)
 
     def try_send(self, I, chan, msg, node):
-        full = z3.Bool('slot_full')
+        full = I.fresh('slot_full')
         if I.branch(full):
             return err(REnum('TrySendError', 'Full', {0: msg}))
         I.effect('send', chan=chan, msg=msg)
@@ -297,7 +297,13 @@ def c16_explore(arg):
                 arg = ok(Opaque('Event', paths=RVec.of(paths)))
             I.call_value(world.handlers[0], [arg])
             sends = [e for e in I.effects[before:] if e[0] == 'send']
-            return {'new': 'ok', 'handlers': nh, 'paths': paths, 'sends': len(sends)}
+            # a second, certainly relevant, event some time later (the callback may keep state between events)
+            before2 = len(I.effects)
+            tries_before = I.fresh_counter.get('slot_full', 0)
+            I.call_value(world.handlers[0], [ok(Opaque('Event', paths=RVec.of(['/p/src/a.rs'] if exts is None or '.rs' in exts else ['/p/src/a' + exts[0]])))])
+            sends2 = [e for e in I.effects[before2:] if e[0] == 'send']
+            tried2 = I.fresh_counter.get('slot_full', 0) > tries_before
+            return {'new': 'ok', 'handlers': nh, 'paths': paths, 'sends': len(sends), 'sends2': len(sends2), 'tried2': tried2}
         I.solver.reset()
         for c in world.constraints([1]):
             I.solver.add(c)
@@ -310,9 +316,9 @@ def c16_explore(arg):
         for c in world.constraints([1]):
             s.add(c)
         s.add(z3.ULT(ev1, len(EVENT_PATHS)), z3.ULT(ev2, len(EVENT_PATHS)))
-        full = z3.Bool('slot_full')
+        full = z3.Bool('slot_full#0')
         obs = {n: {'name': '%s[%s]' % (n, name), 'verdict': 'unsat', 'checked_paths': 0} for n in
-               ('no_panic_on_any_event', 'notifies_iff_a_relevant_path', 'missing_paths_do_not_fail_startup')}
+               ('no_panic_on_any_event', 'notifies_iff_a_relevant_path', 'missing_paths_do_not_fail_startup', 'a_later_relevant_event_is_not_dropped')}
 
         def hit(n, p, detail, extra=()):
             cond = p.cond()
@@ -347,6 +353,9 @@ def c16_explore(arg):
                 exp_send = z3.And(z3.Not(is_err), z3.BoolVal(rel), z3.Not(full))
                 got = z3.BoolVal(v['sends'] > 0)
                 hit('notifies_iff_a_relevant_path', p, 'event %s: code sends=%d, reference relevant=%s' % ([repr(q) for q in v['paths']], v['sends'], rel), [exp_send != got])
+                # the second event is relevant: the callback must at least try to notify (the slot may be full)
+                if not v['tried2']:
+                    hit('a_later_relevant_event_is_not_dropped', p, 'second (relevant) event after %s: no attempt to notify' % ([repr(q) for q in v['paths']],))
         out['obligations'] = list(obs.values())
     except Unsupported as ex:
         out['error'] = 'unsupported: %s' % ex
@@ -480,6 +489,11 @@ def run(prop, tier, seed, repo, jobs):
                         panicked, spawns, rc, tail = native_watch(exts, ['/p/src/' + BAD + '.rs'], repo, is_err=bad_is_err)
                         nat = {'panicked': panicked, 'spawns': spawns, 'rc': rc, 'stderr': tail}
                         confirmed = panicked or spawns < 2
+                    elif ob['name'].startswith('a_later_relevant_event'):
+                        # two relevant changes in quick succession, each followed by the actor consuming the notification
+                        panicked, spawns, rc, tail = native_watch(exts, ['/p/src/a.rs'], repo)
+                        nat = {'panicked': panicked, 'spawns': spawns, 'expected_spawns': 3, 'rc': rc}
+                        confirmed = (not panicked) and spawns < 3
                     else:
                         nat = {'note': 'no native procedure for this obligation'}
                 except Exception as ex:   # pragma: no cover
